@@ -2,6 +2,7 @@ package scen
 
 import (
 	"fmt"
+	"sort"
 	"strings"
 	"time"
 
@@ -136,6 +137,8 @@ type histRunner struct {
 	seenTS  map[string]map[string]bool
 	workDir string
 	masked  map[string]bool // observable kinds no longer compared (known finding hit, independent observable)
+	lenient bool            // C16: the implementation decides acceptance; an error must change nothing
+	lastErr error
 }
 
 func newHistRunner(disk *simkv.Disk, workDir string, u universe) *histRunner {
@@ -354,10 +357,38 @@ func (h *histRunner) step(prop string, i int, op gen.HOp) *Violation {
 	if op.TickUs > 0 {
 		time.Sleep(time.Duration(op.TickUs) * time.Microsecond)
 	}
-	ex := h.applyModel(op)
-	err := h.applyReal(op)
+	var ex expect
+	var err error
 	where := fmt.Sprintf("step %d %s", i, opString(op))
-	if err == nil && !ex.ok {
+	if h.lenient {
+		readd := false
+		if g := h.m.Graphs[op.G]; g != nil {
+			for _, e := range op.E {
+				if old, ok := g.E[e.ID]; ok && (old.From != e.From || old.To != e.To || old.Label != e.Label) {
+					readd = true
+				}
+			}
+		}
+		err = h.applyReal(op)
+		h.lastErr = err
+		if err == nil {
+			h.admit(op)
+			ex = h.applyModelForced(op)
+		} else {
+			ex = expect{shape: op.Op + "(rejected)", noJudgeTS: true}
+		}
+		ex.shape = op.Op + "(" + hostileShape(op) + ")"
+		if readd {
+			ex.shape = op.Op + "(existing edge id, other endpoints or label)"
+		}
+		ex.noJudgeTS = true
+	} else {
+		ex = h.applyModel(op)
+		err = h.applyReal(op)
+	}
+	if h.lenient {
+		// acceptance is the implementation's call
+	} else if err == nil && !ex.ok {
 		return &Violation{Class: prop + "/accepted-invalid", Signature: prop + "/accepted-invalid/after=" + ex.shape, Detail: where + ": the call must be rejected with an error but returned success"}
 	}
 	if err != nil && ex.ok && !ex.mayFail {
@@ -499,4 +530,106 @@ func (h *histRunner) rejudge(prop string, i int, op gen.HOp) *Violation {
 		return &Violation{Class: prop + "/obs=" + obsKind(k), Signature: prop + "/obs=" + obsKind(k) + "/after=" + op.Op + "(state after a known finding)", Detail: fmt.Sprintf("step %d %s: observable %s\n  expected (abstract graph): %s\n  got (implementation):      %s", i, opString(op), k, wv, gv)}
 	}
 	return nil
+}
+
+// applyModelForced applies an accepted call to the model without validating.
+func (h *histRunner) applyModelForced(op gen.HOp) expect {
+	ex := expect{ok: true, shape: op.Op}
+	g := h.m.Graphs[op.G]
+	switch op.Op {
+	case "addGraph":
+		if g == nil {
+			h.m.Graphs[op.G] = model.NewG()
+		}
+	case "delGraph":
+		delete(h.m.Graphs, op.G)
+	case "addV", "addE", "batch", "bulk":
+		if g == nil {
+			return ex
+		}
+		for _, v := range op.V {
+			g.AddVertex(v)
+		}
+		for _, e := range op.E {
+			g.AddEdge(e)
+		}
+	case "delV":
+		if g != nil {
+			g.DelVertex(op.ID)
+		}
+	case "delE":
+		if g != nil {
+			g.DelEdge(op.ID)
+		}
+	}
+	return ex
+}
+
+func hostileShape(op gen.HOp) string {
+	var parts []string
+	add := func(what, s string) {
+		if c := idClass(s); c != "plain" {
+			parts = append(parts, what+":"+c)
+		}
+	}
+	if op.Op != "reopen" {
+		add("graph", op.G)
+	}
+	for _, v := range op.V {
+		add("id", v.ID)
+		add("label", v.Label)
+		for k := range v.Data {
+			add("key", k)
+		}
+	}
+	for _, e := range op.E {
+		add("id", e.ID)
+		add("label", e.Label)
+		add("from", e.From)
+		add("to", e.To)
+		for k := range e.Data {
+			add("key", k)
+		}
+	}
+	if op.ID != "" || op.Op == "delV" || op.Op == "delE" {
+		add("id", op.ID)
+	}
+	if len(parts) == 0 {
+		return "plain identifiers"
+	}
+	// the most specific feature names the shape
+	for _, pri := range []string{"contains-0x00", "invalid-utf8", "contains-0x01", "empty", "internal-word", "very-long", "contains(", "non-ascii"} {
+		for _, p := range parts {
+			if strings.Contains(p, pri) {
+				return p
+			}
+		}
+	}
+	sort.Strings(parts)
+	return parts[0]
+}
+
+// admit adds the identifiers of an accepted write to the observed universe.
+func (h *histRunner) admit(op gen.HOp) {
+	add := func(l *[]string, s string) {
+		for _, x := range *l {
+			if x == s {
+				return
+			}
+		}
+		*l = append(*l, s)
+	}
+	if op.Op == "addGraph" {
+		add(&h.u.Graphs, op.G)
+	}
+	for _, v := range op.V {
+		add(&h.u.VIDs, v.ID)
+		add(&h.u.VLabels, v.Label)
+	}
+	for _, e := range op.E {
+		add(&h.u.EIDs, e.ID)
+		add(&h.u.VIDs, e.From)
+		add(&h.u.VIDs, e.To)
+		add(&h.u.ELabels, e.Label)
+	}
 }
